@@ -8,157 +8,161 @@ import MongoModel.Vocab
 namespace Generated
 open MongoModel.Vocab
 
-/-- every call of a dispatch helper in a module-level function of aggregate.py; the helpers: _accumulate_group (accumulator), _parse_expression (expr), process_pipeline (stage), filter_applies (query) -/
+/-- every call of a dispatch helper in a module-level function of aggregate.py; the helpers: _accumulate_group (accumulator), _parse_expression (expr), process_pipeline (stage), filter_applies (query), _validate_accumulators (accumulator) -/
 def callSites : List CallSite := [
-  ⟨"_accumulate_group", "_parse_expression", 1237⟩,
-  ⟨"_handle_graph_lookup_stage", "filter_applies", 1388⟩,
-  ⟨"_handle_graph_lookup_stage", "_parse_expression", 1400⟩,
-  ⟨"_handle_group_stage", "_parse_expression", 1423⟩,
-  ⟨"_handle_group_stage", "_accumulate_group", 1439⟩,
-  ⟨"_handle_bucket_stage", "_parse_expression", 1490⟩,
-  ⟨"_handle_bucket_stage", "_accumulate_group", 1505⟩,
-  ⟨"_handle_replace_root_stage", "_parse_expression", 1686⟩,
-  ⟨"_handle_project_stage", "_parse_expression", 1727⟩,
-  ⟨"_handle_add_fields_stage", "_parse_expression", 1759⟩,
-  ⟨"_handle_facet_stage", "process_pipeline", 1800⟩,
-  ⟨"_handle_match_stage", "filter_applies", 1809⟩,
-  ⟨"_handle_match_stage", "filter_applies", 1812⟩]
+  ⟨"_accumulate_group", "_parse_expression", 1279⟩,
+  ⟨"_handle_graph_lookup_stage", "filter_applies", 1425⟩,
+  ⟨"_handle_graph_lookup_stage", "_parse_expression", 1437⟩,
+  ⟨"_handle_group_stage", "_validate_accumulators", 1454⟩,
+  ⟨"_handle_group_stage", "_parse_expression", 1461⟩,
+  ⟨"_handle_group_stage", "_accumulate_group", 1477⟩,
+  ⟨"_handle_bucket_stage", "_validate_accumulators", 1506⟩,
+  ⟨"_handle_bucket_stage", "_parse_expression", 1529⟩,
+  ⟨"_handle_bucket_stage", "_accumulate_group", 1544⟩,
+  ⟨"_handle_replace_root_stage", "_parse_expression", 1725⟩,
+  ⟨"_handle_project_stage", "_parse_expression", 1766⟩,
+  ⟨"_handle_add_fields_stage", "_parse_expression", 1798⟩,
+  ⟨"_handle_facet_stage", "process_pipeline", 1850⟩,
+  ⟨"_handle_match_stage", "filter_applies", 1859⟩,
+  ⟨"_handle_match_stage", "filter_applies", 1862⟩]
 
-/-- ⟨`<stage>/<key path in the probed specification>:<family>`, index of the call site⟩ -/
+/-- ⟨`<stage>/<key path in the probed specification>:<family>`, index of the call site, family of the helper called there⟩ -/
 def sites : List Site := [
-  ⟨"$addFields/zq:expr", 9⟩,
-  ⟨"$bucket/groupBy:expr", 5⟩,
-  ⟨"$bucket/output.zn.$sum:expr", 0⟩,
-  ⟨"$bucket/output:accumulator", 6⟩,
-  ⟨"$facet/zp:stage", 10⟩,
-  ⟨"$graphLookup/restrictSearchWithMatch:query", 1⟩,
-  ⟨"$graphLookup/startWith:expr", 2⟩,
-  ⟨"$group/*:accumulator", 4⟩,
-  ⟨"$group/_id:expr", 3⟩,
-  ⟨"$group/zn.$sum:expr", 0⟩,
-  ⟨"$match/*:query", 12⟩,
-  ⟨"$match/*:query@empty", 11⟩,
-  ⟨"$project/zq:expr", 8⟩,
-  ⟨"$replaceRoot/newRoot:expr", 7⟩,
-  ⟨"$set/zq:expr", 9⟩]
+  ⟨"$addFields/zq:expr", 11, .expr⟩,
+  ⟨"$bucket/groupBy:expr", 7, .expr⟩,
+  ⟨"$bucket/output.zn.$sum:expr", 0, .expr⟩,
+  ⟨"$bucket/output:accumulator~_validate_accumulators", 6, .accumulator⟩,
+  ⟨"$bucket/output:accumulator~_accumulate_group", 8, .accumulator⟩,
+  ⟨"$facet/zp:stage", 12, .stage⟩,
+  ⟨"$graphLookup/restrictSearchWithMatch:query", 1, .query⟩,
+  ⟨"$graphLookup/startWith:expr", 2, .expr⟩,
+  ⟨"$group/*:accumulator~_validate_accumulators", 3, .accumulator⟩,
+  ⟨"$group/*:accumulator~_accumulate_group", 5, .accumulator⟩,
+  ⟨"$group/_id:expr", 4, .expr⟩,
+  ⟨"$group/zn.$sum:expr", 0, .expr⟩,
+  ⟨"$match/*:query", 14, .query⟩,
+  ⟨"$match/*:query@empty", 13, .query⟩,
+  ⟨"$project/zq:expr", 10, .expr⟩,
+  ⟨"$replaceRoot/newRoot:expr", 9, .expr⟩,
+  ⟨"$set/zq:expr", 11, .expr⟩]
 
 /-! distinct classifications -/
 def scls_0 : NameClass :=
-  { op := true, comment := false, expr := false, not_ := false, all := false, exists_ := false, neNin := false, each := false, needsDecimal := false, operatorMap := false, logical := false, logicalConst := false, topNI := false, fieldNI := false, updater := false, updateInline := false, updateChecked := false, pushMod := false, stageImpl := false, exprHit := none, exprNI := false, grouping := false, groupInline := false, typeImpl := false, typeNone := false }
+  { op := true, comment := false, expr := false, not_ := false, all := false, exists_ := false, neNin := false, each := false, needsDecimal := false, operatorMap := false, logical := false, logicalConst := false, topNI := false, fieldNI := false, updater := false, updateInline := false, updateChecked := false, pushMod := false, stageImpl := false, exprHit := none, exprNI := false, grouping := false, groupInline := false, groupChecked := false, typeImpl := false, typeNone := false }
 def scls_1 : NameClass :=
-  { op := true, comment := false, expr := false, not_ := false, all := false, exists_ := false, neNin := true, each := false, needsDecimal := false, operatorMap := true, logical := false, logicalConst := false, topNI := false, fieldNI := false, updater := false, updateInline := false, updateChecked := false, pushMod := false, stageImpl := false, exprHit := some true, exprNI := false, grouping := false, groupInline := false, typeImpl := false, typeNone := false }
+  { op := true, comment := false, expr := false, not_ := false, all := false, exists_ := false, neNin := true, each := false, needsDecimal := false, operatorMap := true, logical := false, logicalConst := false, topNI := false, fieldNI := false, updater := false, updateInline := false, updateChecked := false, pushMod := false, stageImpl := false, exprHit := some true, exprNI := false, grouping := false, groupInline := false, groupChecked := false, typeImpl := false, typeNone := false }
 def scls_2 : NameClass :=
-  { op := true, comment := false, expr := false, not_ := false, all := false, exists_ := false, neNin := false, each := false, needsDecimal := false, operatorMap := true, logical := false, logicalConst := false, topNI := false, fieldNI := false, updater := false, updateInline := false, updateChecked := false, pushMod := false, stageImpl := false, exprHit := some true, exprNI := false, grouping := false, groupInline := false, typeImpl := false, typeNone := false }
+  { op := true, comment := false, expr := false, not_ := false, all := false, exists_ := false, neNin := false, each := false, needsDecimal := false, operatorMap := true, logical := false, logicalConst := false, topNI := false, fieldNI := false, updater := false, updateInline := false, updateChecked := false, pushMod := false, stageImpl := false, exprHit := some true, exprNI := false, grouping := false, groupInline := false, groupChecked := false, typeImpl := false, typeNone := false }
 def scls_3 : NameClass :=
-  { op := true, comment := false, expr := false, not_ := false, all := false, exists_ := false, neNin := false, each := false, needsDecimal := false, operatorMap := false, logical := false, logicalConst := false, topNI := false, fieldNI := false, updater := false, updateInline := false, updateChecked := false, pushMod := false, stageImpl := false, exprHit := some true, exprNI := false, grouping := false, groupInline := false, typeImpl := false, typeNone := false }
+  { op := true, comment := false, expr := false, not_ := false, all := false, exists_ := false, neNin := false, each := false, needsDecimal := false, operatorMap := false, logical := false, logicalConst := false, topNI := false, fieldNI := false, updater := false, updateInline := false, updateChecked := false, pushMod := false, stageImpl := false, exprHit := some true, exprNI := false, grouping := false, groupInline := false, groupChecked := false, typeImpl := false, typeNone := false }
 def scls_4 : NameClass :=
-  { op := true, comment := false, expr := false, not_ := false, all := false, exists_ := false, neNin := false, each := false, needsDecimal := false, operatorMap := false, logical := true, logicalConst := false, topNI := false, fieldNI := false, updater := false, updateInline := false, updateChecked := false, pushMod := false, stageImpl := false, exprHit := some true, exprNI := false, grouping := false, groupInline := false, typeImpl := false, typeNone := false }
+  { op := true, comment := false, expr := false, not_ := false, all := false, exists_ := false, neNin := false, each := false, needsDecimal := false, operatorMap := false, logical := true, logicalConst := false, topNI := false, fieldNI := false, updater := false, updateInline := false, updateChecked := false, pushMod := false, stageImpl := false, exprHit := some true, exprNI := false, grouping := false, groupInline := false, groupChecked := false, typeImpl := false, typeNone := false }
 def scls_5 : NameClass :=
-  { op := true, comment := false, expr := false, not_ := false, all := false, exists_ := false, neNin := false, each := false, needsDecimal := false, operatorMap := false, logical := false, logicalConst := false, topNI := false, fieldNI := false, updater := false, updateInline := false, updateChecked := false, pushMod := false, stageImpl := false, exprHit := some true, exprNI := false, grouping := true, groupInline := false, typeImpl := false, typeNone := false }
+  { op := true, comment := false, expr := false, not_ := false, all := false, exists_ := false, neNin := false, each := false, needsDecimal := false, operatorMap := false, logical := false, logicalConst := false, topNI := false, fieldNI := false, updater := false, updateInline := false, updateChecked := false, pushMod := false, stageImpl := false, exprHit := some true, exprNI := false, grouping := true, groupInline := false, groupChecked := true, typeImpl := false, typeNone := false }
 def scls_6 : NameClass :=
-  { op := true, comment := false, expr := false, not_ := false, all := true, exists_ := false, neNin := false, each := false, needsDecimal := false, operatorMap := true, logical := false, logicalConst := false, topNI := false, fieldNI := false, updater := false, updateInline := false, updateChecked := false, pushMod := false, stageImpl := false, exprHit := none, exprNI := false, grouping := false, groupInline := false, typeImpl := false, typeNone := false }
+  { op := true, comment := false, expr := false, not_ := false, all := true, exists_ := false, neNin := false, each := false, needsDecimal := false, operatorMap := true, logical := false, logicalConst := false, topNI := false, fieldNI := false, updater := false, updateInline := false, updateChecked := false, pushMod := false, stageImpl := false, exprHit := none, exprNI := false, grouping := false, groupInline := false, groupChecked := false, typeImpl := false, typeNone := false }
 def scls_7 : NameClass :=
-  { op := true, comment := false, expr := false, not_ := false, all := false, exists_ := false, neNin := false, each := false, needsDecimal := false, operatorMap := false, logical := false, logicalConst := false, topNI := false, fieldNI := false, updater := true, updateInline := false, updateChecked := true, pushMod := false, stageImpl := false, exprHit := some true, exprNI := false, grouping := true, groupInline := false, typeImpl := false, typeNone := false }
+  { op := true, comment := false, expr := false, not_ := false, all := false, exists_ := false, neNin := false, each := false, needsDecimal := false, operatorMap := false, logical := false, logicalConst := false, topNI := false, fieldNI := false, updater := true, updateInline := false, updateChecked := true, pushMod := false, stageImpl := false, exprHit := some true, exprNI := false, grouping := true, groupInline := false, groupChecked := true, typeImpl := false, typeNone := false }
 def scls_8 : NameClass :=
-  { op := true, comment := false, expr := false, not_ := false, all := false, exists_ := false, neNin := true, each := false, needsDecimal := false, operatorMap := true, logical := false, logicalConst := false, topNI := false, fieldNI := false, updater := false, updateInline := false, updateChecked := false, pushMod := false, stageImpl := false, exprHit := none, exprNI := false, grouping := false, groupInline := false, typeImpl := false, typeNone := false }
+  { op := true, comment := false, expr := false, not_ := false, all := false, exists_ := false, neNin := true, each := false, needsDecimal := false, operatorMap := true, logical := false, logicalConst := false, topNI := false, fieldNI := false, updater := false, updateInline := false, updateChecked := false, pushMod := false, stageImpl := false, exprHit := none, exprNI := false, grouping := false, groupInline := false, groupChecked := false, typeImpl := false, typeNone := false }
 def scls_9 : NameClass :=
-  { op := true, comment := false, expr := false, not_ := false, all := false, exists_ := false, neNin := false, each := false, needsDecimal := false, operatorMap := false, logical := false, logicalConst := false, topNI := false, fieldNI := false, updater := false, updateInline := false, updateChecked := false, pushMod := false, stageImpl := false, exprHit := some false, exprNI := false, grouping := false, groupInline := false, typeImpl := false, typeNone := false }
+  { op := true, comment := false, expr := false, not_ := false, all := false, exists_ := false, neNin := false, each := false, needsDecimal := false, operatorMap := false, logical := false, logicalConst := false, topNI := false, fieldNI := false, updater := false, updateInline := false, updateChecked := false, pushMod := false, stageImpl := false, exprHit := some false, exprNI := false, grouping := false, groupInline := false, groupChecked := false, typeImpl := false, typeNone := false }
 def scls_10 : NameClass :=
-  { op := true, comment := false, expr := false, not_ := false, all := false, exists_ := false, neNin := false, each := false, needsDecimal := false, operatorMap := false, logical := true, logicalConst := false, topNI := false, fieldNI := false, updater := false, updateInline := false, updateChecked := false, pushMod := false, stageImpl := false, exprHit := none, exprNI := false, grouping := false, groupInline := false, typeImpl := false, typeNone := false }
+  { op := true, comment := false, expr := false, not_ := false, all := false, exists_ := false, neNin := false, each := false, needsDecimal := false, operatorMap := false, logical := true, logicalConst := false, topNI := false, fieldNI := false, updater := false, updateInline := false, updateChecked := false, pushMod := false, stageImpl := false, exprHit := none, exprNI := false, grouping := false, groupInline := false, groupChecked := false, typeImpl := false, typeNone := false }
 def scls_11 : NameClass :=
-  { op := true, comment := false, expr := false, not_ := false, all := false, exists_ := false, neNin := false, each := false, needsDecimal := false, operatorMap := false, logical := false, logicalConst := false, topNI := false, fieldNI := false, updater := false, updateInline := false, updateChecked := false, pushMod := false, stageImpl := false, exprHit := some true, exprNI := true, grouping := false, groupInline := false, typeImpl := false, typeNone := false }
+  { op := true, comment := false, expr := false, not_ := false, all := false, exists_ := false, neNin := false, each := false, needsDecimal := false, operatorMap := false, logical := false, logicalConst := false, topNI := false, fieldNI := false, updater := false, updateInline := false, updateChecked := false, pushMod := false, stageImpl := false, exprHit := some true, exprNI := true, grouping := false, groupInline := false, groupChecked := false, typeImpl := false, typeNone := false }
 def scls_12 : NameClass :=
-  { op := true, comment := false, expr := false, not_ := false, all := false, exists_ := false, neNin := false, each := false, needsDecimal := false, operatorMap := false, logical := false, logicalConst := false, topNI := false, fieldNI := false, updater := true, updateInline := false, updateChecked := true, pushMod := false, stageImpl := true, exprHit := none, exprNI := false, grouping := false, groupInline := false, typeImpl := false, typeNone := false }
+  { op := true, comment := false, expr := false, not_ := false, all := false, exists_ := false, neNin := false, each := false, needsDecimal := false, operatorMap := false, logical := false, logicalConst := false, topNI := false, fieldNI := false, updater := true, updateInline := false, updateChecked := true, pushMod := false, stageImpl := true, exprHit := none, exprNI := false, grouping := false, groupInline := false, groupChecked := false, typeImpl := false, typeNone := false }
 def scls_13 : NameClass :=
-  { op := true, comment := false, expr := false, not_ := true, all := false, exists_ := false, neNin := false, each := false, needsDecimal := false, operatorMap := false, logical := true, logicalConst := true, topNI := false, fieldNI := false, updater := false, updateInline := false, updateChecked := false, pushMod := false, stageImpl := false, exprHit := some true, exprNI := false, grouping := false, groupInline := false, typeImpl := false, typeNone := false }
+  { op := true, comment := false, expr := false, not_ := true, all := false, exists_ := false, neNin := false, each := false, needsDecimal := false, operatorMap := false, logical := true, logicalConst := true, topNI := false, fieldNI := false, updater := false, updateInline := false, updateChecked := false, pushMod := false, stageImpl := false, exprHit := some true, exprNI := false, grouping := false, groupInline := false, groupChecked := false, typeImpl := false, typeNone := false }
 def scls_14 : NameClass :=
-  { op := true, comment := false, expr := false, not_ := false, all := false, exists_ := false, neNin := false, each := false, needsDecimal := false, operatorMap := false, logical := false, logicalConst := false, topNI := false, fieldNI := false, updater := false, updateInline := false, updateChecked := false, pushMod := false, stageImpl := true, exprHit := none, exprNI := false, grouping := false, groupInline := false, typeImpl := false, typeNone := false }
+  { op := true, comment := false, expr := false, not_ := false, all := false, exists_ := false, neNin := false, each := false, needsDecimal := false, operatorMap := false, logical := false, logicalConst := false, topNI := false, fieldNI := false, updater := false, updateInline := false, updateChecked := false, pushMod := false, stageImpl := true, exprHit := none, exprNI := false, grouping := false, groupInline := false, groupChecked := false, typeImpl := false, typeNone := false }
 def scls_15 : NameClass :=
-  { op := true, comment := false, expr := false, not_ := false, all := false, exists_ := false, neNin := false, each := false, needsDecimal := false, operatorMap := false, logical := false, logicalConst := false, topNI := false, fieldNI := false, updater := false, updateInline := false, updateChecked := false, pushMod := false, stageImpl := false, exprHit := none, exprNI := true, grouping := false, groupInline := false, typeImpl := false, typeNone := false }
+  { op := true, comment := false, expr := false, not_ := false, all := false, exists_ := false, neNin := false, each := false, needsDecimal := false, operatorMap := false, logical := false, logicalConst := false, topNI := false, fieldNI := false, updater := false, updateInline := false, updateChecked := false, pushMod := false, stageImpl := false, exprHit := none, exprNI := true, grouping := false, groupInline := false, groupChecked := false, typeImpl := false, typeNone := false }
 def scls_16 : NameClass :=
-  { op := true, comment := false, expr := false, not_ := false, all := false, exists_ := false, neNin := false, each := false, needsDecimal := false, operatorMap := true, logical := false, logicalConst := false, topNI := false, fieldNI := false, updater := false, updateInline := false, updateChecked := false, pushMod := false, stageImpl := false, exprHit := none, exprNI := false, grouping := false, groupInline := false, typeImpl := false, typeNone := false }
+  { op := true, comment := false, expr := false, not_ := false, all := false, exists_ := false, neNin := false, each := false, needsDecimal := false, operatorMap := true, logical := false, logicalConst := false, topNI := false, fieldNI := false, updater := false, updateInline := false, updateChecked := false, pushMod := false, stageImpl := false, exprHit := none, exprNI := false, grouping := false, groupInline := false, groupChecked := false, typeImpl := false, typeNone := false }
 def scls_17 : NameClass :=
-  { op := true, comment := false, expr := false, not_ := false, all := false, exists_ := false, neNin := false, each := false, needsDecimal := false, operatorMap := false, logical := false, logicalConst := false, topNI := false, fieldNI := false, updater := false, updateInline := true, updateChecked := true, pushMod := false, stageImpl := false, exprHit := none, exprNI := false, grouping := false, groupInline := true, typeImpl := false, typeNone := false }
+  { op := true, comment := false, expr := false, not_ := false, all := false, exists_ := false, neNin := false, each := false, needsDecimal := false, operatorMap := false, logical := false, logicalConst := false, topNI := false, fieldNI := false, updater := false, updateInline := true, updateChecked := true, pushMod := false, stageImpl := false, exprHit := none, exprNI := false, grouping := false, groupInline := true, groupChecked := true, typeImpl := false, typeNone := false }
 def scls_18 : NameClass :=
-  { op := true, comment := false, expr := false, not_ := false, all := false, exists_ := false, neNin := false, each := false, needsDecimal := false, operatorMap := false, logical := false, logicalConst := false, topNI := false, fieldNI := true, updater := false, updateInline := false, updateChecked := false, pushMod := false, stageImpl := false, exprHit := none, exprNI := false, grouping := false, groupInline := false, typeImpl := false, typeNone := false }
+  { op := true, comment := false, expr := false, not_ := false, all := false, exists_ := false, neNin := false, each := false, needsDecimal := false, operatorMap := false, logical := false, logicalConst := false, topNI := false, fieldNI := true, updater := false, updateInline := false, updateChecked := false, pushMod := false, stageImpl := false, exprHit := none, exprNI := false, grouping := false, groupInline := false, groupChecked := false, typeImpl := false, typeNone := false }
 def scls_19 : NameClass :=
-  { op := true, comment := false, expr := true, not_ := false, all := false, exists_ := false, neNin := false, each := false, needsDecimal := false, operatorMap := false, logical := false, logicalConst := false, topNI := true, fieldNI := false, updater := false, updateInline := false, updateChecked := false, pushMod := false, stageImpl := false, exprHit := none, exprNI := false, grouping := false, groupInline := false, typeImpl := false, typeNone := false }
+  { op := true, comment := false, expr := true, not_ := false, all := false, exists_ := false, neNin := false, each := false, needsDecimal := false, operatorMap := false, logical := false, logicalConst := false, topNI := true, fieldNI := false, updater := false, updateInline := false, updateChecked := false, pushMod := false, stageImpl := false, exprHit := none, exprNI := false, grouping := false, groupInline := false, groupChecked := false, typeImpl := false, typeNone := false }
 def scls_20 : NameClass :=
-  { op := true, comment := false, expr := false, not_ := false, all := false, exists_ := false, neNin := false, each := false, needsDecimal := false, operatorMap := false, logical := false, logicalConst := false, topNI := false, fieldNI := false, updater := false, updateInline := false, updateChecked := false, pushMod := true, stageImpl := true, exprHit := none, exprNI := false, grouping := false, groupInline := false, typeImpl := false, typeNone := false }
+  { op := true, comment := false, expr := false, not_ := false, all := false, exists_ := false, neNin := false, each := false, needsDecimal := false, operatorMap := false, logical := false, logicalConst := false, topNI := false, fieldNI := false, updater := false, updateInline := false, updateChecked := false, pushMod := true, stageImpl := true, exprHit := none, exprNI := false, grouping := false, groupInline := false, groupChecked := false, typeImpl := false, typeNone := false }
 def scls_21 : NameClass :=
-  { op := true, comment := false, expr := false, not_ := false, all := false, exists_ := false, neNin := false, each := false, needsDecimal := false, operatorMap := false, logical := false, logicalConst := false, topNI := true, fieldNI := false, updater := false, updateInline := false, updateChecked := false, pushMod := false, stageImpl := false, exprHit := none, exprNI := false, grouping := false, groupInline := false, typeImpl := false, typeNone := false }
+  { op := true, comment := false, expr := false, not_ := false, all := false, exists_ := false, neNin := false, each := false, needsDecimal := false, operatorMap := false, logical := false, logicalConst := false, topNI := true, fieldNI := false, updater := false, updateInline := false, updateChecked := false, pushMod := false, stageImpl := false, exprHit := none, exprNI := false, grouping := false, groupInline := false, groupChecked := false, typeImpl := false, typeNone := false }
 def scls_22 : NameClass :=
-  { op := true, comment := false, expr := false, not_ := false, all := false, exists_ := false, neNin := false, each := false, needsDecimal := false, operatorMap := false, logical := false, logicalConst := false, topNI := false, fieldNI := false, updater := false, updateInline := false, updateChecked := false, pushMod := true, stageImpl := false, exprHit := some true, exprNI := false, grouping := false, groupInline := false, typeImpl := false, typeNone := false }
+  { op := true, comment := false, expr := false, not_ := false, all := false, exists_ := false, neNin := false, each := false, needsDecimal := false, operatorMap := false, logical := false, logicalConst := false, topNI := false, fieldNI := false, updater := false, updateInline := false, updateChecked := false, pushMod := true, stageImpl := false, exprHit := some true, exprNI := false, grouping := false, groupInline := false, groupChecked := false, typeImpl := false, typeNone := false }
 def scls_23 : NameClass :=
-  { op := true, comment := false, expr := false, not_ := false, all := false, exists_ := false, neNin := false, each := false, needsDecimal := false, operatorMap := false, logical := false, logicalConst := false, topNI := false, fieldNI := false, updater := true, updateInline := false, updateChecked := true, pushMod := false, stageImpl := false, exprHit := none, exprNI := false, grouping := false, groupInline := false, typeImpl := false, typeNone := false }
+  { op := true, comment := false, expr := false, not_ := false, all := false, exists_ := false, neNin := false, each := false, needsDecimal := false, operatorMap := false, logical := false, logicalConst := false, topNI := false, fieldNI := false, updater := true, updateInline := false, updateChecked := true, pushMod := false, stageImpl := false, exprHit := none, exprNI := false, grouping := false, groupInline := false, groupChecked := false, typeImpl := false, typeNone := false }
 def scls_24 : NameClass :=
-  { op := true, comment := false, expr := false, not_ := false, all := false, exists_ := false, neNin := false, each := false, needsDecimal := true, operatorMap := false, logical := false, logicalConst := false, topNI := false, fieldNI := false, updater := false, updateInline := false, updateChecked := false, pushMod := false, stageImpl := false, exprHit := some true, exprNI := false, grouping := false, groupInline := false, typeImpl := false, typeNone := false }
+  { op := true, comment := false, expr := false, not_ := false, all := false, exists_ := false, neNin := false, each := false, needsDecimal := true, operatorMap := false, logical := false, logicalConst := false, topNI := false, fieldNI := false, updater := false, updateInline := false, updateChecked := false, pushMod := false, stageImpl := false, exprHit := some true, exprNI := false, grouping := false, groupInline := false, groupChecked := false, typeImpl := false, typeNone := false }
 def scls_25 : NameClass :=
-  { op := true, comment := false, expr := false, not_ := false, all := false, exists_ := true, neNin := false, each := false, needsDecimal := false, operatorMap := true, logical := false, logicalConst := false, topNI := false, fieldNI := false, updater := false, updateInline := false, updateChecked := false, pushMod := false, stageImpl := false, exprHit := none, exprNI := false, grouping := false, groupInline := false, typeImpl := false, typeNone := false }
+  { op := true, comment := false, expr := false, not_ := false, all := false, exists_ := true, neNin := false, each := false, needsDecimal := false, operatorMap := true, logical := false, logicalConst := false, topNI := false, fieldNI := false, updater := false, updateInline := false, updateChecked := false, pushMod := false, stageImpl := false, exprHit := none, exprNI := false, grouping := false, groupInline := false, groupChecked := false, typeImpl := false, typeNone := false }
 def scls_26 : NameClass :=
-  { op := true, comment := true, expr := false, not_ := false, all := false, exists_ := false, neNin := false, each := false, needsDecimal := false, operatorMap := false, logical := false, logicalConst := false, topNI := false, fieldNI := false, updater := false, updateInline := false, updateChecked := false, pushMod := false, stageImpl := false, exprHit := none, exprNI := false, grouping := false, groupInline := false, typeImpl := false, typeNone := false }
+  { op := true, comment := true, expr := false, not_ := false, all := false, exists_ := false, neNin := false, each := false, needsDecimal := false, operatorMap := false, logical := false, logicalConst := false, topNI := false, fieldNI := false, updater := false, updateInline := false, updateChecked := false, pushMod := false, stageImpl := false, exprHit := none, exprNI := false, grouping := false, groupInline := false, groupChecked := false, typeImpl := false, typeNone := false }
 def scls_27 : NameClass :=
-  { op := true, comment := false, expr := false, not_ := false, all := false, exists_ := false, neNin := false, each := false, needsDecimal := false, operatorMap := false, logical := false, logicalConst := false, topNI := false, fieldNI := false, updater := false, updateInline := false, updateChecked := false, pushMod := false, stageImpl := false, exprHit := none, exprNI := true, grouping := true, groupInline := false, typeImpl := false, typeNone := false }
+  { op := true, comment := false, expr := false, not_ := false, all := false, exists_ := false, neNin := false, each := false, needsDecimal := false, operatorMap := false, logical := false, logicalConst := false, topNI := false, fieldNI := false, updater := false, updateInline := false, updateChecked := false, pushMod := false, stageImpl := false, exprHit := none, exprNI := true, grouping := true, groupInline := false, groupChecked := true, typeImpl := false, typeNone := false }
 
-/-! distinct vectors of observations: (site, position of the dispatcher, observed) -/
-def sv_0 : List (Nat × Position × Disposition) :=
-  [(5, .queryField, .raisesOther), (5, .queryTop, .raisesOther), (10, .queryField, .raisesOther), (10, .queryTop, .raisesOther), (11, .queryField, .raisesOther), (11, .queryTop, .raisesOther)]
-def sv_1 : List (Nat × Position × Disposition) :=
-  [(0, .exprProject, .raisesOther), (1, .exprProject, .raisesOther), (2, .exprProject, .raisesOther), (3, .accumulator, .raisesNotImplemented), (4, .stage, .raisesNotImplemented), (5, .queryField, .raisesOther), (5, .queryTop, .raisesOther), (6, .exprProject, .raisesOther), (7, .accumulator, .raisesNotImplemented), (8, .exprProject, .raisesOther), (9, .exprProject, .raisesOther), (10, .queryField, .raisesOther), (10, .queryTop, .raisesOther), (11, .queryField, .raisesOther), (11, .queryTop, .raisesOther), (12, .exprProject, .raisesOther), (13, .exprProject, .raisesOther), (14, .exprProject, .raisesOther)]
-def sv_2 : List (Nat × Position × Disposition) :=
-  [(0, .exprProject, .implemented), (1, .exprProject, .implemented), (2, .exprProject, .implemented), (5, .queryField, .implemented), (5, .queryTop, .raisesOther), (6, .exprProject, .implemented), (8, .exprProject, .implemented), (9, .exprProject, .implemented), (10, .queryField, .implemented), (10, .queryTop, .raisesOther), (11, .queryField, .implemented), (11, .queryTop, .raisesOther), (12, .exprProject, .implemented), (13, .exprProject, .raisesOther), (14, .exprProject, .implemented)]
-def sv_3 : List (Nat × Position × Disposition) :=
-  [(0, .exprProject, .implemented), (1, .exprProject, .implemented), (2, .exprProject, .implemented), (6, .exprProject, .implemented), (8, .exprProject, .implemented), (9, .exprProject, .implemented), (12, .exprProject, .implemented), (13, .exprProject, .raisesOther), (14, .exprProject, .implemented)]
-def sv_4 : List (Nat × Position × Disposition) :=
-  [(0, .exprProject, .implemented), (1, .exprProject, .implemented), (2, .exprProject, .implemented), (5, .queryField, .raisesOther), (5, .queryTop, .implemented), (6, .exprProject, .implemented), (8, .exprProject, .implemented), (9, .exprProject, .implemented), (10, .queryField, .raisesOther), (10, .queryTop, .implemented), (11, .queryField, .raisesOther), (11, .queryTop, .implemented), (12, .exprProject, .implemented), (13, .exprProject, .raisesOther), (14, .exprProject, .implemented)]
-def sv_5 : List (Nat × Position × Disposition) :=
-  [(0, .exprProject, .implemented), (1, .exprProject, .implemented), (2, .exprProject, .implemented), (5, .queryField, .raisesOther), (5, .queryTop, .raisesOther), (6, .exprProject, .implemented), (8, .exprProject, .implemented), (9, .exprProject, .implemented), (10, .queryField, .raisesOther), (10, .queryTop, .raisesOther), (11, .queryField, .raisesOther), (11, .queryTop, .raisesOther), (12, .exprProject, .implemented), (13, .exprProject, .raisesOther), (14, .exprProject, .implemented)]
-def sv_6 : List (Nat × Position × Disposition) :=
-  [(0, .exprProject, .implemented), (1, .exprProject, .implemented), (2, .exprProject, .implemented), (3, .accumulator, .implemented), (6, .exprProject, .implemented), (7, .accumulator, .implemented), (8, .exprProject, .implemented), (9, .exprProject, .implemented), (12, .exprProject, .implemented), (13, .exprProject, .raisesOther), (14, .exprProject, .implemented)]
-def sv_7 : List (Nat × Position × Disposition) :=
-  [(5, .queryField, .implemented), (5, .queryTop, .raisesOther), (10, .queryField, .implemented), (10, .queryTop, .raisesOther), (11, .queryField, .implemented), (11, .queryTop, .raisesOther)]
-def sv_8 : List (Nat × Position × Disposition) :=
-  [(0, .exprProject, .raisesOther), (1, .exprProject, .raisesOther), (2, .exprProject, .raisesOther), (6, .exprProject, .raisesOther), (8, .exprProject, .raisesOther), (9, .exprProject, .raisesOther), (12, .exprProject, .raisesOther), (13, .exprProject, .raisesOther), (14, .exprProject, .raisesOther)]
-def sv_9 : List (Nat × Position × Disposition) :=
-  [(0, .exprProject, .implemented), (1, .exprProject, .implemented), (2, .exprProject, .implemented), (3, .accumulator, .implemented), (5, .queryField, .raisesOther), (5, .queryTop, .raisesOther), (6, .exprProject, .implemented), (7, .accumulator, .implemented), (8, .exprProject, .implemented), (9, .exprProject, .implemented), (10, .queryField, .raisesOther), (10, .queryTop, .raisesOther), (11, .queryField, .raisesOther), (11, .queryTop, .raisesOther), (12, .exprProject, .implemented), (13, .exprProject, .raisesOther), (14, .exprProject, .implemented)]
-def sv_10 : List (Nat × Position × Disposition) :=
-  [(0, .exprProject, .implemented), (1, .exprProject, .raisesOther), (2, .exprProject, .implemented), (6, .exprProject, .implemented), (8, .exprProject, .implemented), (9, .exprProject, .implemented), (12, .exprProject, .implemented), (13, .exprProject, .raisesOther), (14, .exprProject, .implemented)]
-def sv_11 : List (Nat × Position × Disposition) :=
-  [(0, .exprProject, .raisesNotImplemented), (1, .exprProject, .raisesNotImplemented), (2, .exprProject, .raisesNotImplemented), (6, .exprProject, .raisesNotImplemented), (8, .exprProject, .raisesNotImplemented), (9, .exprProject, .raisesNotImplemented), (12, .exprProject, .raisesNotImplemented), (13, .exprProject, .raisesNotImplemented), (14, .exprProject, .raisesNotImplemented)]
-def sv_12 : List (Nat × Position × Disposition) :=
-  [(5, .queryField, .raisesOther), (5, .queryTop, .implemented), (10, .queryField, .raisesOther), (10, .queryTop, .implemented), (11, .queryField, .raisesOther), (11, .queryTop, .implemented)]
-def sv_13 : List (Nat × Position × Disposition) :=
-  [(4, .stage, .implemented)]
-def sv_14 : List (Nat × Position × Disposition) :=
-  [(0, .exprProject, .raisesNotImplemented), (1, .exprProject, .raisesNotImplemented), (2, .exprProject, .raisesNotImplemented), (5, .queryField, .raisesOther), (5, .queryTop, .raisesOther), (6, .exprProject, .raisesNotImplemented), (8, .exprProject, .raisesNotImplemented), (9, .exprProject, .raisesNotImplemented), (10, .queryField, .raisesOther), (10, .queryTop, .raisesOther), (11, .queryField, .raisesOther), (11, .queryTop, .raisesOther), (12, .exprProject, .raisesNotImplemented), (13, .exprProject, .raisesNotImplemented), (14, .exprProject, .raisesNotImplemented)]
-def sv_15 : List (Nat × Position × Disposition) :=
-  [(0, .exprProject, .raisesOther), (1, .exprProject, .raisesOther), (2, .exprProject, .raisesOther), (5, .queryField, .raisesOther), (5, .queryTop, .raisesOther), (6, .exprProject, .raisesOther), (8, .exprProject, .raisesOther), (9, .exprProject, .raisesOther), (10, .queryField, .raisesOther), (10, .queryTop, .raisesOther), (11, .queryField, .raisesOther), (11, .queryTop, .raisesOther), (12, .exprProject, .raisesOther), (13, .exprProject, .raisesOther), (14, .exprProject, .raisesOther)]
-def sv_16 : List (Nat × Position × Disposition) :=
-  [(0, .exprProject, .raisesOther), (1, .exprProject, .raisesOther), (2, .exprProject, .raisesOther), (5, .queryField, .implemented), (5, .queryTop, .raisesOther), (6, .exprProject, .raisesOther), (8, .exprProject, .raisesOther), (9, .exprProject, .raisesOther), (10, .queryField, .implemented), (10, .queryTop, .raisesOther), (11, .queryField, .implemented), (11, .queryTop, .raisesOther), (12, .exprProject, .raisesOther), (13, .exprProject, .raisesOther), (14, .exprProject, .raisesOther)]
-def sv_17 : List (Nat × Position × Disposition) :=
-  [(0, .exprProject, .raisesOther), (1, .exprProject, .raisesOther), (2, .exprProject, .raisesOther), (3, .accumulator, .implemented), (6, .exprProject, .raisesOther), (7, .accumulator, .implemented), (8, .exprProject, .raisesOther), (9, .exprProject, .raisesOther), (12, .exprProject, .raisesOther), (13, .exprProject, .raisesOther), (14, .exprProject, .raisesOther)]
-def sv_18 : List (Nat × Position × Disposition) :=
-  [(5, .queryField, .raisesNotImplemented), (5, .queryTop, .raisesOther), (10, .queryField, .raisesNotImplemented), (10, .queryTop, .raisesOther), (11, .queryField, .raisesNotImplemented), (11, .queryTop, .raisesOther)]
-def sv_19 : List (Nat × Position × Disposition) :=
-  [(5, .queryField, .raisesOther), (5, .queryTop, .raisesNotImplemented), (10, .queryField, .raisesOther), (10, .queryTop, .raisesNotImplemented), (11, .queryField, .raisesOther), (11, .queryTop, .raisesNotImplemented)]
-def sv_20 : List (Nat × Position × Disposition) :=
-  [(0, .exprProject, .implemented), (1, .exprProject, .raisesOther), (2, .exprProject, .implemented), (5, .queryField, .raisesOther), (5, .queryTop, .raisesOther), (6, .exprProject, .implemented), (8, .exprProject, .implemented), (9, .exprProject, .implemented), (10, .queryField, .raisesOther), (10, .queryTop, .raisesOther), (11, .queryField, .raisesOther), (11, .queryTop, .raisesOther), (12, .exprProject, .implemented), (13, .exprProject, .raisesOther), (14, .exprProject, .implemented)]
-def sv_21 : List (Nat × Position × Disposition) :=
-  [(4, .stage, .raisesNotImplemented)]
-def sv_22 : List (Nat × Position × Disposition) :=
-  [(0, .exprProject, .raisesOther), (1, .exprProject, .raisesOther), (2, .exprProject, .raisesOther), (3, .accumulator, .raisesNotImplemented), (4, .stage, .implemented), (6, .exprProject, .raisesOther), (7, .accumulator, .raisesNotImplemented), (8, .exprProject, .raisesOther), (9, .exprProject, .raisesOther), (12, .exprProject, .raisesOther), (13, .exprProject, .raisesOther), (14, .exprProject, .raisesOther)]
-def sv_23 : List (Nat × Position × Disposition) :=
-  [(4, .stage, .raisesNotImplemented), (5, .queryField, .raisesOther), (5, .queryTop, .raisesOther), (10, .queryField, .raisesOther), (10, .queryTop, .raisesOther), (11, .queryField, .raisesOther), (11, .queryTop, .raisesOther)]
-def sv_24 : List (Nat × Position × Disposition) :=
-  [(0, .exprProject, .implemented), (1, .exprProject, .implemented), (2, .exprProject, .implemented), (6, .exprProject, .implemented), (8, .exprProject, .implemented), (9, .exprProject, .implemented), (12, .exprProject, .implemented), (13, .exprProject, .implemented), (14, .exprProject, .implemented)]
-def sv_25 : List (Nat × Position × Disposition) :=
-  [(0, .exprProject, .raisesNotImplemented), (1, .exprProject, .raisesNotImplemented), (2, .exprProject, .raisesNotImplemented), (3, .accumulator, .raisesNotImplemented), (6, .exprProject, .raisesNotImplemented), (7, .accumulator, .raisesNotImplemented), (8, .exprProject, .raisesNotImplemented), (9, .exprProject, .raisesNotImplemented), (12, .exprProject, .raisesNotImplemented), (13, .exprProject, .raisesNotImplemented), (14, .exprProject, .raisesNotImplemented)]
-def sv_26 : List (Nat × Position × Disposition) :=
-  [(0, .exprProject, .raisesOther), (1, .exprProject, .raisesOther), (2, .exprProject, .raisesOther), (3, .accumulator, .raisesNotImplemented), (6, .exprProject, .raisesOther), (7, .accumulator, .raisesNotImplemented), (8, .exprProject, .raisesOther), (9, .exprProject, .raisesOther), (12, .exprProject, .raisesOther), (13, .exprProject, .raisesOther), (14, .exprProject, .raisesOther)]
-def sv_27 : List (Nat × Position × Disposition) :=
-  [(0, .exprProject, .raisesNotImplemented), (1, .exprProject, .raisesNotImplemented), (2, .exprProject, .raisesNotImplemented), (3, .accumulator, .implemented), (6, .exprProject, .raisesNotImplemented), (7, .accumulator, .implemented), (8, .exprProject, .raisesNotImplemented), (9, .exprProject, .raisesNotImplemented), (12, .exprProject, .raisesNotImplemented), (13, .exprProject, .raisesNotImplemented), (14, .exprProject, .raisesNotImplemented)]
-def sv_28 : List (Nat × Position × Disposition) :=
-  [(0, .exprProject, .implemented), (1, .exprProject, .raisesOther), (2, .exprProject, .implemented), (6, .exprProject, .implemented), (8, .exprProject, .implemented), (9, .exprProject, .implemented), (12, .exprProject, .implemented), (13, .exprProject, .implemented), (14, .exprProject, .implemented)]
+/-! distinct vectors of observations: ⟨site, position of the dispatcher, observed, the same calls on an empty collection⟩ -/
+def sv_0 : List SiteObs :=
+  [⟨6, .queryField, .raisesOther, .silent⟩, ⟨6, .queryTop, .raisesOther, .silent⟩, ⟨12, .queryField, .raisesOther, .raises⟩, ⟨12, .queryTop, .raisesOther, .raises⟩, ⟨13, .queryField, .raisesOther, .raises⟩, ⟨13, .queryTop, .raisesOther, .raises⟩]
+def sv_1 : List SiteObs :=
+  [⟨0, .exprProject, .raisesOther, .silent⟩, ⟨1, .exprProject, .raisesOther, .silent⟩, ⟨2, .exprProject, .raisesOther, .silent⟩, ⟨3, .accumulator, .raisesNotImplemented, .raises⟩, ⟨4, .accumulator, .raisesNotImplemented, .raises⟩, ⟨5, .stage, .raisesNotImplemented, .raises⟩, ⟨6, .queryField, .raisesOther, .silent⟩, ⟨6, .queryTop, .raisesOther, .silent⟩, ⟨7, .exprProject, .raisesOther, .silent⟩, ⟨8, .accumulator, .raisesNotImplemented, .raises⟩, ⟨9, .accumulator, .raisesNotImplemented, .raises⟩, ⟨10, .exprProject, .raisesOther, .silent⟩, ⟨11, .exprProject, .raisesOther, .silent⟩, ⟨12, .queryField, .raisesOther, .raises⟩, ⟨12, .queryTop, .raisesOther, .raises⟩, ⟨13, .queryField, .raisesOther, .raises⟩, ⟨13, .queryTop, .raisesOther, .raises⟩, ⟨14, .exprProject, .raisesOther, .silent⟩, ⟨15, .exprProject, .raisesOther, .silent⟩, ⟨16, .exprProject, .raisesOther, .silent⟩]
+def sv_2 : List SiteObs :=
+  [⟨0, .exprProject, .implemented, .notProbed⟩, ⟨1, .exprProject, .implemented, .notProbed⟩, ⟨2, .exprProject, .implemented, .notProbed⟩, ⟨6, .queryField, .implemented, .notProbed⟩, ⟨6, .queryTop, .raisesOther, .silent⟩, ⟨7, .exprProject, .implemented, .notProbed⟩, ⟨10, .exprProject, .implemented, .notProbed⟩, ⟨11, .exprProject, .implemented, .notProbed⟩, ⟨12, .queryField, .implemented, .notProbed⟩, ⟨12, .queryTop, .raisesOther, .raises⟩, ⟨13, .queryField, .implemented, .notProbed⟩, ⟨13, .queryTop, .raisesOther, .raises⟩, ⟨14, .exprProject, .implemented, .notProbed⟩, ⟨15, .exprProject, .raisesOther, .silent⟩, ⟨16, .exprProject, .implemented, .notProbed⟩]
+def sv_3 : List SiteObs :=
+  [⟨0, .exprProject, .implemented, .notProbed⟩, ⟨1, .exprProject, .implemented, .notProbed⟩, ⟨2, .exprProject, .implemented, .notProbed⟩, ⟨7, .exprProject, .implemented, .notProbed⟩, ⟨10, .exprProject, .implemented, .notProbed⟩, ⟨11, .exprProject, .implemented, .notProbed⟩, ⟨14, .exprProject, .implemented, .notProbed⟩, ⟨15, .exprProject, .raisesOther, .silent⟩, ⟨16, .exprProject, .implemented, .notProbed⟩]
+def sv_4 : List SiteObs :=
+  [⟨0, .exprProject, .implemented, .notProbed⟩, ⟨1, .exprProject, .implemented, .notProbed⟩, ⟨2, .exprProject, .implemented, .notProbed⟩, ⟨6, .queryField, .raisesOther, .silent⟩, ⟨6, .queryTop, .implemented, .notProbed⟩, ⟨7, .exprProject, .implemented, .notProbed⟩, ⟨10, .exprProject, .implemented, .notProbed⟩, ⟨11, .exprProject, .implemented, .notProbed⟩, ⟨12, .queryField, .raisesOther, .raises⟩, ⟨12, .queryTop, .implemented, .notProbed⟩, ⟨13, .queryField, .raisesOther, .raises⟩, ⟨13, .queryTop, .implemented, .notProbed⟩, ⟨14, .exprProject, .implemented, .notProbed⟩, ⟨15, .exprProject, .raisesOther, .silent⟩, ⟨16, .exprProject, .implemented, .notProbed⟩]
+def sv_5 : List SiteObs :=
+  [⟨0, .exprProject, .implemented, .notProbed⟩, ⟨1, .exprProject, .implemented, .notProbed⟩, ⟨2, .exprProject, .implemented, .notProbed⟩, ⟨6, .queryField, .raisesOther, .silent⟩, ⟨6, .queryTop, .raisesOther, .silent⟩, ⟨7, .exprProject, .implemented, .notProbed⟩, ⟨10, .exprProject, .implemented, .notProbed⟩, ⟨11, .exprProject, .implemented, .notProbed⟩, ⟨12, .queryField, .raisesOther, .raises⟩, ⟨12, .queryTop, .raisesOther, .raises⟩, ⟨13, .queryField, .raisesOther, .raises⟩, ⟨13, .queryTop, .raisesOther, .raises⟩, ⟨14, .exprProject, .implemented, .notProbed⟩, ⟨15, .exprProject, .raisesOther, .silent⟩, ⟨16, .exprProject, .implemented, .notProbed⟩]
+def sv_6 : List SiteObs :=
+  [⟨0, .exprProject, .implemented, .notProbed⟩, ⟨1, .exprProject, .implemented, .notProbed⟩, ⟨2, .exprProject, .implemented, .notProbed⟩, ⟨3, .accumulator, .implemented, .notProbed⟩, ⟨4, .accumulator, .implemented, .notProbed⟩, ⟨7, .exprProject, .implemented, .notProbed⟩, ⟨8, .accumulator, .implemented, .notProbed⟩, ⟨9, .accumulator, .implemented, .notProbed⟩, ⟨10, .exprProject, .implemented, .notProbed⟩, ⟨11, .exprProject, .implemented, .notProbed⟩, ⟨14, .exprProject, .implemented, .notProbed⟩, ⟨15, .exprProject, .raisesOther, .silent⟩, ⟨16, .exprProject, .implemented, .notProbed⟩]
+def sv_7 : List SiteObs :=
+  [⟨6, .queryField, .implemented, .notProbed⟩, ⟨6, .queryTop, .raisesOther, .silent⟩, ⟨12, .queryField, .implemented, .notProbed⟩, ⟨12, .queryTop, .raisesOther, .raises⟩, ⟨13, .queryField, .implemented, .notProbed⟩, ⟨13, .queryTop, .raisesOther, .raises⟩]
+def sv_8 : List SiteObs :=
+  [⟨0, .exprProject, .raisesOther, .silent⟩, ⟨1, .exprProject, .raisesOther, .silent⟩, ⟨2, .exprProject, .raisesOther, .silent⟩, ⟨7, .exprProject, .raisesOther, .silent⟩, ⟨10, .exprProject, .raisesOther, .silent⟩, ⟨11, .exprProject, .raisesOther, .silent⟩, ⟨14, .exprProject, .raisesOther, .silent⟩, ⟨15, .exprProject, .raisesOther, .silent⟩, ⟨16, .exprProject, .raisesOther, .silent⟩]
+def sv_9 : List SiteObs :=
+  [⟨0, .exprProject, .implemented, .notProbed⟩, ⟨1, .exprProject, .implemented, .notProbed⟩, ⟨2, .exprProject, .implemented, .notProbed⟩, ⟨3, .accumulator, .implemented, .notProbed⟩, ⟨4, .accumulator, .implemented, .notProbed⟩, ⟨6, .queryField, .raisesOther, .silent⟩, ⟨6, .queryTop, .raisesOther, .silent⟩, ⟨7, .exprProject, .implemented, .notProbed⟩, ⟨8, .accumulator, .implemented, .notProbed⟩, ⟨9, .accumulator, .implemented, .notProbed⟩, ⟨10, .exprProject, .implemented, .notProbed⟩, ⟨11, .exprProject, .implemented, .notProbed⟩, ⟨12, .queryField, .raisesOther, .raises⟩, ⟨12, .queryTop, .raisesOther, .raises⟩, ⟨13, .queryField, .raisesOther, .raises⟩, ⟨13, .queryTop, .raisesOther, .raises⟩, ⟨14, .exprProject, .implemented, .notProbed⟩, ⟨15, .exprProject, .raisesOther, .silent⟩, ⟨16, .exprProject, .implemented, .notProbed⟩]
+def sv_10 : List SiteObs :=
+  [⟨0, .exprProject, .implemented, .notProbed⟩, ⟨1, .exprProject, .raisesOther, .silent⟩, ⟨2, .exprProject, .implemented, .notProbed⟩, ⟨7, .exprProject, .implemented, .notProbed⟩, ⟨10, .exprProject, .implemented, .notProbed⟩, ⟨11, .exprProject, .implemented, .notProbed⟩, ⟨14, .exprProject, .implemented, .notProbed⟩, ⟨15, .exprProject, .raisesOther, .silent⟩, ⟨16, .exprProject, .implemented, .notProbed⟩]
+def sv_11 : List SiteObs :=
+  [⟨0, .exprProject, .raisesNotImplemented, .silent⟩, ⟨1, .exprProject, .raisesNotImplemented, .silent⟩, ⟨2, .exprProject, .raisesNotImplemented, .silent⟩, ⟨7, .exprProject, .raisesNotImplemented, .silent⟩, ⟨10, .exprProject, .raisesNotImplemented, .silent⟩, ⟨11, .exprProject, .raisesNotImplemented, .silent⟩, ⟨14, .exprProject, .raisesNotImplemented, .silent⟩, ⟨15, .exprProject, .raisesNotImplemented, .silent⟩, ⟨16, .exprProject, .raisesNotImplemented, .silent⟩]
+def sv_12 : List SiteObs :=
+  [⟨6, .queryField, .raisesOther, .silent⟩, ⟨6, .queryTop, .implemented, .notProbed⟩, ⟨12, .queryField, .raisesOther, .raises⟩, ⟨12, .queryTop, .implemented, .notProbed⟩, ⟨13, .queryField, .raisesOther, .raises⟩, ⟨13, .queryTop, .implemented, .notProbed⟩]
+def sv_13 : List SiteObs :=
+  [⟨5, .stage, .implemented, .notProbed⟩]
+def sv_14 : List SiteObs :=
+  [⟨0, .exprProject, .raisesNotImplemented, .silent⟩, ⟨1, .exprProject, .raisesNotImplemented, .silent⟩, ⟨2, .exprProject, .raisesNotImplemented, .silent⟩, ⟨6, .queryField, .raisesOther, .silent⟩, ⟨6, .queryTop, .raisesOther, .silent⟩, ⟨7, .exprProject, .raisesNotImplemented, .silent⟩, ⟨10, .exprProject, .raisesNotImplemented, .silent⟩, ⟨11, .exprProject, .raisesNotImplemented, .silent⟩, ⟨12, .queryField, .raisesOther, .raises⟩, ⟨12, .queryTop, .raisesOther, .raises⟩, ⟨13, .queryField, .raisesOther, .raises⟩, ⟨13, .queryTop, .raisesOther, .raises⟩, ⟨14, .exprProject, .raisesNotImplemented, .silent⟩, ⟨15, .exprProject, .raisesNotImplemented, .silent⟩, ⟨16, .exprProject, .raisesNotImplemented, .silent⟩]
+def sv_15 : List SiteObs :=
+  [⟨0, .exprProject, .raisesOther, .silent⟩, ⟨1, .exprProject, .raisesOther, .silent⟩, ⟨2, .exprProject, .raisesOther, .silent⟩, ⟨6, .queryField, .raisesOther, .silent⟩, ⟨6, .queryTop, .raisesOther, .silent⟩, ⟨7, .exprProject, .raisesOther, .silent⟩, ⟨10, .exprProject, .raisesOther, .silent⟩, ⟨11, .exprProject, .raisesOther, .silent⟩, ⟨12, .queryField, .raisesOther, .raises⟩, ⟨12, .queryTop, .raisesOther, .raises⟩, ⟨13, .queryField, .raisesOther, .raises⟩, ⟨13, .queryTop, .raisesOther, .raises⟩, ⟨14, .exprProject, .raisesOther, .silent⟩, ⟨15, .exprProject, .raisesOther, .silent⟩, ⟨16, .exprProject, .raisesOther, .silent⟩]
+def sv_16 : List SiteObs :=
+  [⟨0, .exprProject, .raisesOther, .silent⟩, ⟨1, .exprProject, .raisesOther, .silent⟩, ⟨2, .exprProject, .raisesOther, .silent⟩, ⟨6, .queryField, .implemented, .notProbed⟩, ⟨6, .queryTop, .raisesOther, .silent⟩, ⟨7, .exprProject, .raisesOther, .silent⟩, ⟨10, .exprProject, .raisesOther, .silent⟩, ⟨11, .exprProject, .raisesOther, .silent⟩, ⟨12, .queryField, .implemented, .notProbed⟩, ⟨12, .queryTop, .raisesOther, .raises⟩, ⟨13, .queryField, .implemented, .notProbed⟩, ⟨13, .queryTop, .raisesOther, .raises⟩, ⟨14, .exprProject, .raisesOther, .silent⟩, ⟨15, .exprProject, .raisesOther, .silent⟩, ⟨16, .exprProject, .raisesOther, .silent⟩]
+def sv_17 : List SiteObs :=
+  [⟨0, .exprProject, .raisesOther, .silent⟩, ⟨1, .exprProject, .raisesOther, .silent⟩, ⟨2, .exprProject, .raisesOther, .silent⟩, ⟨3, .accumulator, .implemented, .notProbed⟩, ⟨4, .accumulator, .implemented, .notProbed⟩, ⟨7, .exprProject, .raisesOther, .silent⟩, ⟨8, .accumulator, .implemented, .notProbed⟩, ⟨9, .accumulator, .implemented, .notProbed⟩, ⟨10, .exprProject, .raisesOther, .silent⟩, ⟨11, .exprProject, .raisesOther, .silent⟩, ⟨14, .exprProject, .raisesOther, .silent⟩, ⟨15, .exprProject, .raisesOther, .silent⟩, ⟨16, .exprProject, .raisesOther, .silent⟩]
+def sv_18 : List SiteObs :=
+  [⟨6, .queryField, .raisesNotImplemented, .silent⟩, ⟨6, .queryTop, .raisesOther, .silent⟩, ⟨12, .queryField, .raisesNotImplemented, .raises⟩, ⟨12, .queryTop, .raisesOther, .raises⟩, ⟨13, .queryField, .raisesNotImplemented, .raises⟩, ⟨13, .queryTop, .raisesOther, .raises⟩]
+def sv_19 : List SiteObs :=
+  [⟨6, .queryField, .raisesOther, .silent⟩, ⟨6, .queryTop, .raisesNotImplemented, .silent⟩, ⟨12, .queryField, .raisesOther, .raises⟩, ⟨12, .queryTop, .raisesNotImplemented, .raises⟩, ⟨13, .queryField, .raisesOther, .raises⟩, ⟨13, .queryTop, .raisesNotImplemented, .raises⟩]
+def sv_20 : List SiteObs :=
+  [⟨0, .exprProject, .implemented, .notProbed⟩, ⟨1, .exprProject, .raisesOther, .silent⟩, ⟨2, .exprProject, .implemented, .notProbed⟩, ⟨6, .queryField, .raisesOther, .silent⟩, ⟨6, .queryTop, .raisesOther, .silent⟩, ⟨7, .exprProject, .implemented, .notProbed⟩, ⟨10, .exprProject, .implemented, .notProbed⟩, ⟨11, .exprProject, .implemented, .notProbed⟩, ⟨12, .queryField, .raisesOther, .raises⟩, ⟨12, .queryTop, .raisesOther, .raises⟩, ⟨13, .queryField, .raisesOther, .raises⟩, ⟨13, .queryTop, .raisesOther, .raises⟩, ⟨14, .exprProject, .implemented, .notProbed⟩, ⟨15, .exprProject, .raisesOther, .silent⟩, ⟨16, .exprProject, .implemented, .notProbed⟩]
+def sv_21 : List SiteObs :=
+  [⟨5, .stage, .raisesNotImplemented, .raises⟩]
+def sv_22 : List SiteObs :=
+  [⟨0, .exprProject, .raisesOther, .silent⟩, ⟨1, .exprProject, .raisesOther, .silent⟩, ⟨2, .exprProject, .raisesOther, .silent⟩, ⟨3, .accumulator, .raisesNotImplemented, .raises⟩, ⟨4, .accumulator, .raisesNotImplemented, .raises⟩, ⟨5, .stage, .implemented, .notProbed⟩, ⟨7, .exprProject, .raisesOther, .silent⟩, ⟨8, .accumulator, .raisesNotImplemented, .raises⟩, ⟨9, .accumulator, .raisesNotImplemented, .raises⟩, ⟨10, .exprProject, .raisesOther, .silent⟩, ⟨11, .exprProject, .raisesOther, .silent⟩, ⟨14, .exprProject, .raisesOther, .silent⟩, ⟨15, .exprProject, .raisesOther, .silent⟩, ⟨16, .exprProject, .raisesOther, .silent⟩]
+def sv_23 : List SiteObs :=
+  [⟨5, .stage, .raisesNotImplemented, .raises⟩, ⟨6, .queryField, .raisesOther, .silent⟩, ⟨6, .queryTop, .raisesOther, .silent⟩, ⟨12, .queryField, .raisesOther, .raises⟩, ⟨12, .queryTop, .raisesOther, .raises⟩, ⟨13, .queryField, .raisesOther, .raises⟩, ⟨13, .queryTop, .raisesOther, .raises⟩]
+def sv_24 : List SiteObs :=
+  [⟨0, .exprProject, .implemented, .notProbed⟩, ⟨1, .exprProject, .implemented, .notProbed⟩, ⟨2, .exprProject, .implemented, .notProbed⟩, ⟨7, .exprProject, .implemented, .notProbed⟩, ⟨10, .exprProject, .implemented, .notProbed⟩, ⟨11, .exprProject, .implemented, .notProbed⟩, ⟨14, .exprProject, .implemented, .notProbed⟩, ⟨15, .exprProject, .implemented, .notProbed⟩, ⟨16, .exprProject, .implemented, .notProbed⟩]
+def sv_25 : List SiteObs :=
+  [⟨0, .exprProject, .raisesNotImplemented, .silent⟩, ⟨1, .exprProject, .raisesNotImplemented, .silent⟩, ⟨2, .exprProject, .raisesNotImplemented, .silent⟩, ⟨3, .accumulator, .raisesNotImplemented, .raises⟩, ⟨4, .accumulator, .raisesNotImplemented, .raises⟩, ⟨7, .exprProject, .raisesNotImplemented, .silent⟩, ⟨8, .accumulator, .raisesNotImplemented, .raises⟩, ⟨9, .accumulator, .raisesNotImplemented, .raises⟩, ⟨10, .exprProject, .raisesNotImplemented, .silent⟩, ⟨11, .exprProject, .raisesNotImplemented, .silent⟩, ⟨14, .exprProject, .raisesNotImplemented, .silent⟩, ⟨15, .exprProject, .raisesNotImplemented, .silent⟩, ⟨16, .exprProject, .raisesNotImplemented, .silent⟩]
+def sv_26 : List SiteObs :=
+  [⟨0, .exprProject, .raisesOther, .silent⟩, ⟨1, .exprProject, .raisesOther, .silent⟩, ⟨2, .exprProject, .raisesOther, .silent⟩, ⟨3, .accumulator, .raisesNotImplemented, .raises⟩, ⟨4, .accumulator, .raisesNotImplemented, .raises⟩, ⟨7, .exprProject, .raisesOther, .silent⟩, ⟨8, .accumulator, .raisesNotImplemented, .raises⟩, ⟨9, .accumulator, .raisesNotImplemented, .raises⟩, ⟨10, .exprProject, .raisesOther, .silent⟩, ⟨11, .exprProject, .raisesOther, .silent⟩, ⟨14, .exprProject, .raisesOther, .silent⟩, ⟨15, .exprProject, .raisesOther, .silent⟩, ⟨16, .exprProject, .raisesOther, .silent⟩]
+def sv_27 : List SiteObs :=
+  [⟨0, .exprProject, .raisesNotImplemented, .silent⟩, ⟨1, .exprProject, .raisesNotImplemented, .silent⟩, ⟨2, .exprProject, .raisesNotImplemented, .silent⟩, ⟨3, .accumulator, .implemented, .notProbed⟩, ⟨4, .accumulator, .implemented, .notProbed⟩, ⟨7, .exprProject, .raisesNotImplemented, .silent⟩, ⟨8, .accumulator, .implemented, .notProbed⟩, ⟨9, .accumulator, .implemented, .notProbed⟩, ⟨10, .exprProject, .raisesNotImplemented, .silent⟩, ⟨11, .exprProject, .raisesNotImplemented, .silent⟩, ⟨14, .exprProject, .raisesNotImplemented, .silent⟩, ⟨15, .exprProject, .raisesNotImplemented, .silent⟩, ⟨16, .exprProject, .raisesNotImplemented, .silent⟩]
+def sv_28 : List SiteObs :=
+  [⟨0, .exprProject, .implemented, .notProbed⟩, ⟨1, .exprProject, .raisesOther, .silent⟩, ⟨2, .exprProject, .implemented, .notProbed⟩, ⟨7, .exprProject, .implemented, .notProbed⟩, ⟨10, .exprProject, .implemented, .notProbed⟩, ⟨11, .exprProject, .implemented, .notProbed⟩, ⟨14, .exprProject, .implemented, .notProbed⟩, ⟨15, .exprProject, .implemented, .notProbed⟩, ⟨16, .exprProject, .implemented, .notProbed⟩]
 
 /-- $ $$ $e $EQ $ne $in $ln $no $Eq $eq $or $gt $lt $eq  $NqW $add $and $mod $gte $lte $log $avg $all $Sum $sum $tan $min $nin $sin $map $zip $cmp $exp $ eq $$eq $eqq $nor $abs $cos $Set -/
 def siteRows_0 : List SiteRow := [
@@ -437,10 +441,13 @@ def siteRowChunks : List (List SiteRow) := [siteRows_0, siteRows_1, siteRows_2, 
 /-- all site rows (257 names) -/
 def siteRows : List SiteRow := siteRowChunks.flatten
 
-/-- one entry per (site, position of the dispatcher, name), 2317 entries -/
+/-- one entry per (site, position of the dispatcher, name), 2401 entries -/
 def siteVocab : List SiteEntry := siteEntriesOf siteRows
 
 /-- known findings (known_findings.json): (site, name) pairs accepted silently:  -/
 def knownIgnoredSitePairs : List (Nat × Code) := []
+
+/-- known findings (known_findings.json, `lazy-empty:<site>`): sites at which a name that is refused on a populated collection is let through on an empty one: $addFields/zq:expr, $bucket/groupBy:expr, $bucket/output.zn.$sum:expr, $graphLookup/restrictSearchWithMatch:query, $graphLookup/startWith:expr, $group/_id:expr, $group/zn.$sum:expr, $project/zq:expr, $replaceRoot/newRoot:expr, $set/zq:expr -/
+def knownLazyEmptySites : List Nat := [0, 1, 2, 6, 7, 10, 11, 14, 15, 16]
 
 end Generated
